@@ -71,7 +71,10 @@ def contest_spec(draw, kind=None, audit_types=("CARD_COMPARISON", "ONEAUDIT", "P
         spec["winners"] = sorted(draw(st.lists(st.sampled_from(cands), min_size=k, max_size=k, unique=True)))
     elif kind == "super":
         spec["winners"] = [draw(st.sampled_from(cands))]
-        spec["f"] = draw(st.sampled_from(["1/2", "1/2", "2/3", "3/5", "1/4", "11/20"]))
+        spec["f"] = draw(st.sampled_from(["1/2", "1/2", "2/3", "3/5", "1/4", "2/5", "11/20"]))
+        # built through make_all_assertions, or by calling make_supermajority_assertion directly (as the library's own
+        # test does) and leaving its share_to_win argument at its default: the contest's own share must govern
+        spec["direct"] = draw(st.booleans())
     else:
         w = draw(st.sampled_from(cands))
         spec["winners"] = [w]
@@ -193,6 +196,12 @@ def build(scn, pool_workflow=True):
                              "error_rate_2": 0.0, "reps": None,
                              "strata": {"s": {"max_cards": scn.get("max_cards", n), "use_style": us, "replacement": False}}})
     Assertion.make_all_assertions(contests)
+    for cid, s in scn["contests"].items():
+        if s["kind"] == "super" and s.get("direct"):
+            con = contests[cid]
+            con.assertions = Assertion.make_supermajority_assertion(
+                contest=con, winner=con.winner[0], loser=[c for c in con.candidates if c not in con.winner],
+                test=con.test, test_kwargs=con.test_kwargs, estim=con.estim, bet=con.bet)
     cvrs = [CVR(id=c["id"], votes=copy.deepcopy(c["votes"]), phantom=c["phantom"], tally_pool=c["tally_pool"], pool=c["pool"])
             for c in scn["cards"]]
     if pool_workflow and scn.get("pool_workflow", True) and any(c.pool for c in cvrs):
